@@ -687,3 +687,12 @@ Proof.
   - perm_solve.
   - rewrite llp_merge_perm; [perm_solve|]. left; auto.
 Qed.
+
+(* heap_split_and_steal leaves *heap_ptr NULL only when nothing else is left *)
+Lemma heap_split_hp_nil h t nh : heap_split h = (Some t, [], nh) -> nh = [].
+Proof.
+  unfold heap_split. destruct h as [|top [|x [|y rr]]]; intros Es; try (inversion Es; subst; auto; fail).
+  destruct (split_lv (length (x :: y :: rr)) 1 (x :: y :: rr)) as [lft rgt] eqn:El.
+  inversion Es; subst. apply split_lv_first in El; [|lia|cbn; lia].
+  destruct El as [_ El]. exfalso. apply El; auto. cbn; lia.
+Qed.
